@@ -116,7 +116,7 @@ let mk_tmpl maxin maxcache (table : tmsg list) =
 
 (* WebSocket pair after the handshake, MessageIOGateway slaves (DEFAULT encoding): the slave gateways are the
    binary-gateway model itself (sender: d_flat, receiver: the byte-level machine d_feed) *)
-let mk_ws client_sends maxin =
+let mk_ws ?(keys = []) client_sends maxin =
   let sflat m = snd (d_flat () m) in
   (* "while(_slaveGateway()->DoInput(receiver).GetByteCount() > 0) {}" over the payload: the slave's own DoInput loop
      (the chunk-level model; the theorems use its byte-level equivalent d_feed, FrameProofs.f_do_input_spec) *)
@@ -126,7 +126,7 @@ let mk_ws client_sends maxin =
       let ((sl', o), pipe') = d_do_input maxin sl big [big; big; big; big; big; big] pipe in
       if List.length pipe' = List.length pipe then (sl', outs @ o) else go sl' pipe' (outs @ o) in
     go sl payload [] in
-  let s = ref (ws_init []) and r = ref (wr_init (fr_init ())) in
+  let s = ref (ws_init keys) and r = ref (wr_init (fr_init ())) in
   { q = (fun a -> s := ws_queue !s (bytes_of_hex a));
     o = (fun maxb scr ->
           let (s', w) = ws_do_output sflat client_sends !s maxb scr in
@@ -194,11 +194,12 @@ let () =
       let body = String.sub line (p+1) (String.length line - p - 1) in
       let nth l i d = match List.nth_opt l i with Some x -> x | None -> d in
       let h0 = List.hd head in
-      if h0.[0] = 'K' || h0.[0] = 'X' || h0 = "WC" || h0 = "MC" || h0 = "CM" || h0 = "UC" || h0 = "CU"
+      if h0.[0] = 'K' || h0.[0] = 'X' || (h0 = "WC" && List.length head < 2) || h0 = "MC" || h0 = "CM" || h0 = "UC" || h0 = "CU"
          || (h0 = "P" && List.length head < 5) then
         Printf.printf "%d oracle-only\n" k   (* not modelled: the harness evaluates the end-to-end oracle only *)
       else
       let m = match List.hd head with
+        | "WC" -> mk_ws ~keys:(List.map bytes_of_hex (String.split_on_char ',' (nth head 1 ""))) true (n_of_int 4294967295)
         | "WS" -> mk_ws false (n_of_int 4294967295)
         | "WR" -> mk_ws true (n_of_int 4294967295)
         | "P" ->
